@@ -124,6 +124,8 @@ def run(ctx):
         if vd != "ok":
             ctx.violation(vd.split(":", 1)[1], {k: (impl.dna(v) if k in ("s", "x") else v) for k, v in c.items()}, "ok", vd)
     ctx.sample({"flow": "B", "case": {"len": len(cases[0]["s"]), "n": cases[0]["n"], "vt": impl.dna(cases[0]["vt"])}, "verdict": got[1]})
+    from vlib import apalache
+    ctx.notes["unbounded_lemmas"] = apalache.lemmas(["Ind_VT"], ctx)      # the flag separates single edits for strands of any length
     ctx.assumptions += ["decode is exercised on the complete order-1 graph so that only the check can reject"]
     return {"scope": {"MaxLen": 6 if ctx.quick else 8, "MaxN": 4 if ctx.quick else 5, "flowB_cases": len(cases)}}
 
